@@ -44,6 +44,10 @@ THEOREMS = {
         "Dawgs.C10.Props.two_hoisted_conjuncts_change_meaning_old",
         "Dawgs.C10.Props.hoist_all_of_changes_meaning_old",
         "Dawgs.C10.Props.string_negation_guard_eval",
+        "Dawgs.C10.Props.query_parse_emit",
+        "Dawgs.C10.Props.query_roundtrip",
+        "Dawgs.C10.Props.prepare_parameters_preserved",
+        "Dawgs.C10.Props.lift_numbering",
     ],
 }
 
@@ -279,7 +283,7 @@ SPEC = {
     "level": "proof",
     "lean_modules": ["Dawgs.Props.C10"],
     "theorems_by_module": THEOREMS,
-    "gate_modules": ["Dawgs.Model.C10", "Dawgs.Spec.C10", "Dawgs.Proofs.C10", "Dawgs.Props.C10"],
+    "gate_modules": ["Dawgs.Model.C10", "Dawgs.Model.C10Q", "Dawgs.Spec.C10", "Dawgs.Spec.C10Q", "Dawgs.Proofs.C10", "Dawgs.Proofs.C10Q", "Dawgs.Props.C10"],
     "suites": [
         {"name": "c10", "model_suite": "c10", "model_input": model_input, "impl_view": impl_view, "model_view": model_view,
          "judge": judge, "keep_prefix": 1, "thorough_seeds": 2},
